@@ -52,6 +52,46 @@ func (m *mach) builtinModel(fn *ssa.Function, args []mv) (mv, bool) {
 	switch {
 	case strings.HasPrefix(name, "strings.Builder."):
 		return m.builderModel(fn.Name(), args)
+	case name == "strings.NewReplacer":
+		var pairs []string
+		switch l := args[0].(type) {
+		case mSlice:
+			for _, e := range l.arr {
+				s, ok := e.(string)
+				if !ok {
+					return nil, false
+				}
+				pairs = append(pairs, s)
+			}
+		case mNilT:
+		default:
+			return nil, false
+		}
+		if len(pairs)%2 != 0 {
+			m.throw(m.sym("strings.NewReplacer: odd argument count", nil), "strings.NewReplacer: odd argument count")
+		}
+		var slot mv = &mReplacer{r: strings.NewReplacer(pairs...)}
+		return &slot, true
+	case strings.HasPrefix(name, "strings.Replacer."):
+		if p, ok := args[0].(*mv); ok && p != nil {
+			if rp, ok := (*p).(*mReplacer); ok {
+				switch fn.Name() {
+				case "Replace":
+					if s, ok := args[1].(string); ok {
+						return rp.r.Replace(s), true
+					}
+				case "WriteString":
+					if s, ok := args[2].(string); ok {
+						out := rp.r.Replace(s)
+						if w, ok := args[1].(mIface); ok {
+							if r, ok := m.builderModel("WriteString", []mv{w.v, out}); ok {
+								return r, true
+							}
+						}
+					}
+				}
+			}
+		}
 	case strings.HasPrefix(name, "strings."):
 		return m.stringsModel(fn.Name(), args)
 	case strings.HasPrefix(name, "unicode/utf8."):
@@ -562,3 +602,6 @@ func (m *mach) callValue(f mv, args []mv) mv {
 	m.abort("call of the function value %s from a modelled library function", mRender(f))
 	return nil
 }
+
+// mReplacer is the content of a *strings.Replacer built from constant pairs.
+type mReplacer struct{ r *strings.Replacer }
